@@ -2,6 +2,9 @@ package main
 
 import (
 	"go/ast"
+	"go/token"
+	"os"
+	"path/filepath"
 	"sort"
 	"strings"
 )
@@ -409,6 +412,35 @@ func factsC11() {
 		return true
 	})
 	emitList("postingsOffsetBufInit", "pkg/block/indexheader/binary_reader.go postingsOffset: every assignment to and use of the skip length buf", bufUse)
+	// the in-memory index-header: its buffer is freshly allocated and not handed on by Close
+	emitList("memoryWriterCtorStmts", "pkg/block/indexheader/binary_reader.go NewMemoryWriter, statement by statement", flatStmts(body(fn(f, "", "NewMemoryWriter"))))
+	emitList("memoryWriterCloseStmts", "pkg/block/indexheader/binary_reader.go MemoryWriter.Close, statement by statement", flatStmts(body(fn(f, "MemoryWriter", "Close"))))
+	var pools []string
+	if ents, err := os.ReadDir(filepath.Join(root, "pkg/block/indexheader")); err == nil {
+		for _, e := range ents {
+			if !strings.HasSuffix(e.Name(), ".go") || strings.HasSuffix(e.Name(), "_test.go") {
+				continue
+			}
+			pf := parse("pkg/block/indexheader/" + e.Name())
+			if pf == nil {
+				continue
+			}
+			for _, d := range pf.Decls {
+				gd, ok := d.(*ast.GenDecl)
+				if !ok || gd.Tok != token.VAR {
+					continue
+				}
+				for _, sp := range gd.Specs {
+					if vs, ok := sp.(*ast.ValueSpec); ok && strings.Contains(text(vs), "Pool") {
+						for _, nm := range vs.Names {
+							pools = append(pools, e.Name()+": "+nm.Name)
+						}
+					}
+				}
+			}
+		}
+	}
+	emitList("indexheaderPoolVars", "pkg/block/indexheader: package-level variables that are or hold a pool", pools)
 	emitList("lookupSymbolStmts", "pkg/block/indexheader/binary_reader.go LookupSymbol, statement by statement", flatStmts(body(fn(f, "BinaryReader", "LookupSymbol"))))
 	emitList("labelNamesStmts", "pkg/block/indexheader/binary_reader.go LabelNames, statement by statement", flatStmts(body(fn(f, "BinaryReader", "LabelNames"))))
 }
